@@ -179,6 +179,8 @@ def replay_histories(rep, hists, customs, dprobes, eprobes):
     for i, (n, msg, via_set) in res:
         hist = hists[i]
         f = [x for x in rep.findings if x.get("signature") == "api:mutation-of-returned-robust-alphabet-visible-to-later-calls"]
+        if rep.pid == "C11" and hist[n]["op"] not in ("decode", "encode", "encode_strict"):
+            continue        # C11 is about translation results; the configuration getters belong to C12
         if via_set and hist[n]["op"] == "get_alphabet" and f:
             rep.known(f[0]["id"], f[0]["what"][:300])
             continue
@@ -284,8 +286,8 @@ def check_C11(tier):
             if line.startswith("DIVERGE"):
                 info = json.loads(line[8:])
                 f = [x for x in rep.findings if x.get("signature") == "api:mutation-of-returned-robust-alphabet-visible-to-later-calls"]
-                if info.get("what") == "alphabet" and info.get("after_set_mutation") and f:
-                    rep.known(f[0]["id"], f[0]["what"][:300])
+                if info.get("what") in ("alphabet", "accepted", "state"):
+                    continue            # configuration API: C12's business
                 else:
                     rep.violation("random API history (seed %d): %s" % (job[0], info.get("message")), info)
     rep.notes["random_histories"] = n_hist
